@@ -78,6 +78,7 @@ def run_case(acc, c: dict, monitors: List[Callable], nontrivial: Optional[Callab
     prog = prog if prog is not None else prog_of(c)
     selection, tie_budget = c.get("sel"), c.get("ties")
     warm, debug_on, batch_order = c.get("warm", 0), c.get("debug_on", False), c.get("batch", False)
+    early = c.get("early", 0)
     src = prog.source()
     lines = src_lines_of(prog, src)
     sel = selection_set(prog, selection)
@@ -113,13 +114,13 @@ def run_case(acc, c: dict, monitors: List[Callable], nontrivial: Optional[Callab
             fresh()
         H.Tok.FALSY = set(prog.falsy)
         op = make_op(state["d"], prog, selection)
-        res = H.run_controlled(op, prefix=prefix, is_async=prog.is_async, batch_order=batch_order)
+        res = H.run_controlled(op, prefix=prefix, is_async=prog.is_async, batch_order=batch_order, early=bool(early))
         if res.outcome in ("hang", "spin"):
             fresh()
         return res
 
     try:
-        for prefix, res in explore(run_one, tie_budget, max_execs):
+        for prefix, res in explore(run_one, tie_budget, max_execs, early or 0):
             nexec += 1
             acc.evaluations += 1
             acc.add_hits(res.hook_hits)
@@ -178,7 +179,8 @@ def replay_case(c: dict, monitors: List[Callable], prefix, prog: Optional[GProg]
                         if i is not None and prog.nodes[i].setup and i not in pre:
                             pre[i] = e[2]
         H.Tok.FALSY = set(prog.falsy)
-        res = H.run_controlled(make_op(d, prog, selection), prefix=tuple(prefix), is_async=prog.is_async, batch_order=batch_order)
+        res = H.run_controlled(make_op(d, prog, selection), prefix=tuple(prefix), is_async=prog.is_async, batch_order=batch_order,
+                               early=bool(c.get("early", 0)))
         view = View(prog, res, sel, pre, debug_on, None, src_lines_of(prog, src), ns["__src_file__"])
         view.case = c
         viols = [v for m in monitors for v in m(view)]
